@@ -1015,8 +1015,8 @@ theorem C20_program3_no_refusal (s s' : Prog.State) (P : Prog3.Program) (inv : s
 
 /-- **Conversely**: a program with navigation every step of which the implementation answers `ok` — in
     particular every navigation found a node — is accepted by the specification, with the same final state
-    (then `C20_program3_refines` / `C20_any_program3` apply).  `Prog3.inScope`: what `Prog2.inScope` excludes,
-    and a `clear()` for which the specification's liveness test of the collected entry nodes fails. -/
+    (then `C20_program3_refines` / `C20_any_program3` apply).  `Prog3.inScope`: what `Prog2.inScope` excludes
+    (none of the new steps). -/
 theorem C20_any_program3_conv (s : Prog.State) (P : Prog3.Program) (inv : s.forest.Inv)
     (hfl : Prog.FlagsOk s.forest) (hsc : Prog3.inScope s P = true) (hok : (Prog3.runImpl s P).2 = .ok) :
     Prog3.runSpec s P = some (Prog3.runImpl s P).1 :=
@@ -1037,6 +1037,33 @@ theorem C20_program3_refusal_exact (s : Prog.State) (P : Prog3.Program) (inv : s
     (hfl : Prog.FlagsOk s.forest) (hsc : Prog3.inScope s P = true) :
     Prog3.firstRefused s P = Prog3.firstIllFormed s P :=
   Prog3.firstRefused_eq P s inv hfl hsc
+
+/-- Per call, acceptance by the specification is EXACTLY the model's outcome `ok` (navigation resolved; for
+    the new calls `Prog3.Call.inScope` is `true`): `remove(key)` and `clear()` are well-formed on elements
+    and nowhere else — the entry nodes `clear()` collected are all still there when their turn comes
+    (`Prog3.clear_accepted`) —, `set_namespace` on namespace nodes, `set_target` on processing instructions. -/
+theorem C20_program3_call_exact (f : Forest) (c : Prog3.Call) (inv : f.Inv) (hfl : Prog.FlagsOk f)
+    (hs : c.inScope f = true) : (c.spec f).isSome = true ↔ (c.impl f).2.1 = .ok := by
+  constructor
+  · intro h
+    cases hc : c.spec f with
+    | none => rw [hc] at h; cases h
+    | some fo =>
+      obtain ⟨f', o⟩ := fo
+      rw [(Prog3.call_spec_impl inv hfl hc).1]
+  · intro h
+    cases hi : c.impl f with
+    | mk f' ro =>
+      obtain ⟨r, o⟩ := ro
+      rw [hi] at h
+      simp only at h
+      subst h
+      obtain ⟨g, o', hsp⟩ := Prog3.spec_of_ok inv hfl c hs hi
+      rw [hsp]; rfl
+
+theorem C20_program3_clear_exact (f : Forest) (inv : f.Inv) (hfl : Prog.FlagsOk f) (k : Forest.MapKind) (e : Nat) :
+    ((Prog3.Call.mapClear k e).spec f).isSome = f.isElement e :=
+  Prog3.mapClear_spec_isSome inv hfl k e
 
 /-- The extension is conservative: an extended program (`Prog2`) runs identically as a `Prog3` program … -/
 theorem C20_program3_old (s : Prog.State) (P : Prog2.Program) :
